@@ -4,6 +4,9 @@ import stage_lin, stage_topo, gen
 
 def run_oracle(chk, rng, ncases, task, name, grounds, families=None):
     cases = []
+    rp = replay_input()
+    if rp and rp['kind'] == 'spec':
+        chk.notes.setdefault('failing_specs', []).insert(0, json.loads(json.dumps(rp['value'])))
     # inputs on which a correspondence stage disagreed are tried first
     for k, sp in enumerate(chk.notes.get('failing_specs', [])[:16]):
         cases.append(dict(id=10 ** 6 + k, seed=rng.randrange(10 ** 9), spec=json.loads(json.dumps(sp))))
